@@ -26,3 +26,15 @@ def run(ctx) -> None:
     res, stats = family_results(ctx, tags=("cap", "regcap"))
     ctx.extra["skeleton_stats"] = stats
     report(ctx, res, "C05", prefixes=("G1.", "G3.", "G4.", "G5."), cats=("cap", "regcap"), compile_tags=("cap", "regcap"))
+    # G9: group numbers are the current rule's own: the same capture names compiled after another rule that registered
+    # them at other positions (same process) give the regex of the rule compiled alone
+    from ..models import Sym
+    from ._matchrules import compile_sequence_equals_fresh
+    a = {"pattern": [{Sym("M1"): ["&genreg.64", "&val"]}, {Sym("M2"): ["&genreg.32", "&val", "&indreg.16"]}, "&i", "&i"]}
+    b = {"pattern": [{Sym("M3"): ["&val", "&indreg.64"]}, "&i", {Sym("M4"): ["&genreg.64"]},
+                     {Sym("M5"): ["&genreg.32", "&val", "&indreg.16"]}, "&i"]}
+    c = {"config": {"operands-full-match": True},
+         "pattern": [{Sym("M6"): [{"$deref": {"main_reg": "&genreg.64", "constant_offset": "&val"}}]}, {Sym("M7"): ["&genreg.8L", "&val"]}]}
+    compile_sequence_equals_fresh(ctx, "C05.G9.numbering-independent-of-earlier-rules",
+                                  [("B after A", [a, b]), ("A after B", [b, a]), ("C after A and B", [a, b, c]),
+                                   ("B twice", [b, b]), ("A after C", [c, a])])
